@@ -125,7 +125,8 @@ def spellings(ctx):
 
 IDENTS = ["a", "_x", "A1", "nullable", "anything", "allowed", "trueness", "falsey", "notes", "inside", "android", "orange", "addition", "modern",
           "eqx", "in_", "nullx", "truex", "any_", "all1", "notx", "divide", "subtotal", "multiply", "n.a", "ns.sub.name", "true.x", "null.y", "any.z",
-          "a" * 128, "a" * 129, "a." + "b" * 126, "x9_", "İd", "ıd", "ſ", "Kelvin", "fal\u017fe", "FAL\u017fE", "fal\u017fe.x", "n.fal\u017fe", "\u0131n", "d\u0131v", "\u017fub", "é", "日", "ab-cd", "a.", "a..b", ".a", "9a", "a b"]
+          "a" * 128, "a" * 129, "a." + "b" * 126, "ns1.ns2." + "n" * 121, "a.b.c.d." + "x" * 124, "n." * 63 + "n", "n." * 127 + "n", "nullable." + "n" * 119, "ns." + "n" * 126,
+          "ns." + "n" * 127, "x9_", "İd", "ıd", "ſ", "Kelvin", "fal\u017fe", "FAL\u017fE", "fal\u017fe.x", "n.fal\u017fe", "\u0131n", "d\u0131v", "\u017fub", "é", "日", "ab-cd", "a.", "a..b", ".a", "9a", "a b"]
 CONTEXTS = ["{} eq 1", "1 eq {}", "({})", "f.g({})", "x in ({}, 1)", "k/any(v: v eq {})", "not {}", "{} add 1 lt 2", "concat({}, {})"]
 
 def run(ctx):
@@ -202,7 +203,8 @@ def run(ctx):
     def judge_ident(i):
         import re
         # the library's own identifier shape: an ASCII letter or underscore, then word characters (Unicode `\w`) and dots
-        if not re.fullmatch(r"[_a-zA-Z]\w*(\.\w+)*", i) or len(i) > 128 or i.lower() in ("true", "false", "null", "any", "all", "not"):
+        # the 128-character limit counts the identifier characters; the dots between namespace segments are free
+        if not re.fullmatch(r"[_a-zA-Z]\w*(\.\w+)*", i) or len(i.replace(".", "")) > 128 or i.lower() in ("true", "false", "null", "any", "all", "not"):
             return None
         try:
             nd = ODataParser().parse(ODataLexer().tokenize(i + " eq 1"))
